@@ -14,6 +14,8 @@
 //   insert_cell : the cell is absent and all its faces are present; boundary listed by increasing arrow number (plain)
 //   remove_cell : the cell is present and no present cell has it as a face
 //   filtered    : filtration values monotone (non-decreasing or non-increasing) along the sequence; cell keys distinct
+// --seed-ops <list|all>: every history starts with that fixed operation list ("all" = insert every cell of the universe
+//   in numbering order); the enumeration (depth counted after the seed) is exhaustive from there.
 // Case encoding (replayable): "u=<universe>;ops=<c1,c2,...>;fe=<plain|storage|stream>[;dimmax=<d>;vals=<v1,...>]"
 //   op code 0 = apply_identity, 1+c = insert cell c, 1+N+c = remove cell c (N = number of cells of the universe).
 #include "harness.hpp"
@@ -548,6 +550,7 @@ struct Enum {
   int shard = 0, nshards = 1, prefix_depth = 4;
   int full_values_depth = 0;   // every monotone value sequence over {0,1,2} for histories up to this depth
   int filtered_depth = 0;      // the fixed value sequences for histories up to this depth
+  std::vector<int> seed;       // fixed operation prefix of every history (reaches complexes a search from empty cannot)
   bool oracle_only = false;     // timing aid: enumerate and run the oracle, skip the implementation
   long long counter = 0;
   std::vector<int> h;
@@ -571,7 +574,7 @@ struct Enum {
       else if (op > 0) { ++nins; if (seen[op - 1]++) ++reins; }
     }
     S.add("ev.states");
-    S.add("histories.depth_" + std::to_string(h.size()));
+    S.add("histories.depth_" + std::to_string(h.size() - seed.size()));
     int nfin = 0;
     for (auto& x : want) {
       if (x.death < 0) { S.add("bars.open"); if (h[x.birth] > N) S.add("bars.open_born_by_removal"); continue; }
@@ -592,8 +595,8 @@ struct Enum {
     chk.run_plain(h, want);
     if (nrem == 0) chk.check_insertion_only(h, want);
 
-    int n = (int)h.size();
-    if (n <= full_values_depth) {
+    int n = (int)h.size(), rel = n - (int)seed.size();
+    if (seed.empty() && rel <= full_values_depth) {
       // positions of the non-identity operations get every non-decreasing sequence over {0,1,2} (and its mirror image)
       std::vector<int> pos;
       for (int i = 0; i < n; ++i) if (h[i] != 0) pos.push_back(i);
@@ -615,7 +618,7 @@ struct Enum {
           chk.run_stream(h, rev, want);
           S.add("value_sequences.non_increasing");
         }
-    } else if (n <= filtered_depth) {
+    } else if (rel <= filtered_depth) {
       std::vector<double> s1(n), s2(n), s3(n);
       for (int i = 0; i < n; ++i) { s1[i] = i; s2[i] = i / 2; s3[i] = -(i / 3); }
       chk.run_storage(h, s1, -1, want);
@@ -646,11 +649,19 @@ struct Enum {
   }
 
   // iterative deepening: all histories of depth 0, then 1, ...: the first mismatch printed is a shortest one
+  // depths are counted after the seed
   void run(int max_depth) {
+    uint64_t K = 0;
+    for (int op : seed) {
+      if (op < 0 || op > 2 * U.N() || !chk.model.enabled(K, op)) { fprintf(stderr, "seed: operation %d not enabled\n", op); exit(2); }
+      K = chk.model.apply(K, op);
+      h.push_back(op);
+      z.push(K);
+    }
     for (int d = 0; d <= max_depth; ++d) {
       counter = 0;
-      dfs(0, d, 0);
-      vf::stats().maxi("completed_depth." + U.name, d);
+      dfs(0, d, K);
+      vf::stats().maxi("completed_depth." + U.name + (seed.empty() ? "" : ".seeded"), d);
     }
   }
 };
@@ -701,6 +712,11 @@ int main(int argc, char** argv) {
   e.full_values_depth = (int)a.geti("valdepth", 0);
   e.filtered_depth = (int)a.geti("fedepth", 0);
   e.oracle_only = a.geti("oracle-only", 0) != 0;
+  {
+    std::string sd = a.get("seed-ops", "");
+    if (sd == "all") for (int c = 0; c < U.N(); ++c) e.seed.push_back(1 + c);  // every cell of the universe, by number
+    else e.seed = vf::parse_ints(sd);
+  }
   e.run((int)a.geti("depth", 5));
   vf::stats().add(std::string("column_type.") + col_name());
   vf::finish();
